@@ -905,6 +905,7 @@ impl<'a, 'tcx> Cx<'a, 'tcx> {
                 ),
                 ("op", self.operand(o)),
                 ("ty", ty_json(tcx, *t)),
+                ("from", ty_json(tcx, o.ty(&self.body.local_decls, tcx))),
             ]),
             Rvalue::CopyForDeref(p) => J::obj(vec![
                 ("k", J::s("use")),
